@@ -150,15 +150,6 @@ def DQc():
     return '"'
 
 
-def backslash_quote_docs():
-    """content in which a backslash stands immediately before a quote character"""
-    return [doc("bsquote", [
-        const("A", T("string"), L(BS, DQc())),
-        const("B", T("string"), L(BS, "'")),
-        const("C", T("string"), L("a", BS, BS, DQc(), "b")),
-    ])]
-
-
 def number_docs():
     return [doc("numbers", [
         const("Z", T("i32"), I(0)), const("P", T("i32"), I(26)), const("N", T("i32"), I(-26)),
@@ -265,7 +256,8 @@ def c03_docs(tier):
     out = tiny_docs() + core_docs() + literal_docs() + number_docs() + sink_doc()
     out += id_pattern_docs(2 if tier == "quick" else 3)
     out += field_matrix_docs() if tier == "thorough" else field_matrix_docs()[:2]
-    special = backslash_quote_docs() + exponent_docs()
+    # (contents with a backslash immediately before a quote character are outside the universe, see LexLit.tla Plain)
+    special = exponent_docs()
     return out, special
 
 
